@@ -1,4 +1,5 @@
 import QtyModel.Props.C01
+import QtyModel.Props.C02
 import QtyModel.Props.C03
 import QtyModel.Props.C04
 import QtyModel.Props.C05
@@ -173,6 +174,66 @@ theorem dec_dmul_total (TL : QT Dec U) (TR : QT Dec V) (TO : QT Dec W)
     ∃ res, dmul Dec.arith TL TR TO l r = .ok res := by
   obtain ⟨res, _, h, _⟩ := C04.dmul_mag Dec.arith Backends.dec_laws TL TR TO hI href l r a b sl sr ha hb hsl hsr sc hsc hsafe
   exact ⟨res, h⟩
+
+
+/-- ratios of like quantities -/
+theorem dec_div_total (T : QT Dec U) (a b : Q Dec U) (s1 s2 x y : Rat)
+    (hne : b.unit ≠ a.unit)
+    (hs1 : Dec.arith.val (T.scale a.unit) = some s1) (hs2 : Dec.arith.val (T.scale b.unit) = some s2) (hs1ne : s1 ≠ 0)
+    (hx : Dec.arith.val a.amount = some x) (hy : Dec.arith.val b.amount = some y)
+    (hsafe : Oracle.convSafe ErrModel.dec s2 s1 y = true)
+    (hcb : Oracle.convBoundIn ErrModel.dec s2 s1 y < ratAbs (s2 / s1 * y))
+    (hsafe2 : ErrModel.dec.safe (ratAbs x / (ratAbs (s2 / s1 * y) - Oracle.convBoundIn ErrModel.dec s2 s1 y)
+      + ErrModel.dec.E (ratAbs x / (ratAbs (s2 / s1 * y) - Oracle.convBoundIn ErrModel.dec s2 s1 y))) = true) :
+    ∃ c, hrDiv Dec.arith T a b = .ok c := by
+  obtain ⟨c, _, h, _⟩ := C03.div_ratio Dec.arith T Backends.dec_laws a b s1 s2 x y hne hs1 hs2 hs1ne hx hy hsafe hcb hsafe2
+  exact ⟨c, h⟩
+
+/-- comparisons across units: both conversions stay in range, so `==` and `partial_cmp` return -/
+theorem dec_cmp_total (T : QT Dec U) (a b : Q Dec U) (sa sb x y : Rat)
+    (hsa : Dec.arith.val (T.scale a.unit) = some sa) (hsb : Dec.arith.val (T.scale b.unit) = some sb)
+    (hsa0 : sa ≠ 0) (hsb0 : sb ≠ 0)
+    (hx : Dec.arith.val a.amount = some x) (hy : Dec.arith.val b.amount = some y)
+    (hs1 : Oracle.convSafe ErrModel.dec sb sa y = true) (hs2 : Oracle.convSafe ErrModel.dec sa sb x = true) :
+    (∃ e, hrEq Dec.arith T a b = .ok e) ∧ (∃ p, hrPcmp Dec.arith T a b = .ok p) := by
+  by_cases hu : a.unit = b.unit
+  · rw [C02.eq_same_unit Dec.arith T a b hu, C02.pcmp_same_unit Dec.arith T a b hu]
+    exact ⟨⟨_, rfl⟩, ⟨_, rfl⟩⟩
+  · have hu' : b.unit ≠ a.unit := fun h => hu h.symm
+    obtain ⟨c1, _, he1, _⟩ := equiv_ok Dec.arith T Backends.dec_laws b a.unit sb sa y hu' hsb hsa hsa0 hy hs1
+    obtain ⟨c2, _, he2, _⟩ := equiv_ok Dec.arith T Backends.dec_laws a b.unit sa sb x hu hsa hsb hsb0 hx hs2
+    constructor
+    · unfold hrEq
+      split <;> simp [he1, he2, bind, Except.bind, pure, Except.pure]
+    · unfold hrPcmp
+      simp only [hu, if_false]
+      split <;> simp [he1, he2, bind, Except.bind, pure, Except.pure]
+
+/-- derived quotients -/
+theorem dec_ddiv_total (TL : QT Dec U) (TR : QT Dec V) (TO : QT Dec W)
+    (hI : TO.fitIdentity = none) (href : TO.ref ∈ TO.units)
+    (l : Q Dec U) (r : Q Dec V) (a b sl sr : Rat)
+    (ha : Dec.arith.val l.amount = some a) (hb : Dec.arith.val r.amount = some b) (hb0 : b ≠ 0)
+    (hsl : Dec.arith.val (TL.scale l.unit) = some sl) (hsr : Dec.arith.val (TR.scale r.unit) = some sr) (hsr0 : sr ≠ 0)
+    (sc : W → Rat) (hsc : ∀ u ∈ TO.units, Dec.arith.val (TO.scale u) = some (sc u) ∧ 0 < sc u)
+    (hsafe : ∀ u ∈ TO.units, Oracle.derivedSafe ErrModel.dec (a / b) (sl / sr) (sc u) = true) :
+    ∃ res, ddiv Dec.arith TL TR TO l r = .ok res := by
+  obtain ⟨res, _, h, _⟩ := C04.ddiv_mag Dec.arith Backends.dec_laws TL TR TO hI href l r a b sl sr ha hb hb0 hsl hsr hsr0 sc hsc hsafe
+  exact ⟨res, h⟩
+
+/-- rates: `rate * q`, `q * rate` and `q / rate` return inside the range described by the
+propagated bound (`w.ok`) -/
+theorem dec_rate_total (T : RTable Dec) (r : Rate Dec) (q : Q Dec Nat) (qv pmv tav : Rat) (w w' : Approx)
+    (hq : Dec.arith.val q.amount = some qv) (hpm : Dec.arith.val r.perMultiple = some pmv)
+    (hta : Dec.arith.val r.termAmount = some tav)
+    (hw : approxRateApply Dec.arith ErrModel.dec T (Approx.exact qv) q.unit r.perUnit (Approx.exact pmv) (Approx.exact tav) = .ok (some w))
+    (hok : w.ok = true)
+    (hw' : approxRateApply Dec.arith ErrModel.dec T (Approx.exact qv) q.unit r.termUnit (Approx.exact tav) (Approx.exact pmv) = .ok (some w'))
+    (hok' : w'.ok = true) :
+    (∃ res, Rate.mulQ Dec.arith T r q = .ok res) ∧ (∃ res, Rate.divQ Dec.arith T q r = .ok res) := by
+  obtain ⟨res, h, _⟩ := C13.mulQ_sound Dec.arith Backends.dec_laws T r q qv pmv tav w hq hpm hta hw hok
+  obtain ⟨res', h', _⟩ := C13.divQ_sound Dec.arith Backends.dec_laws T r q qv pmv tav w' hq hpm hta hw' hok'
+  exact ⟨⟨res, h⟩, ⟨res', h'⟩⟩
 
 /-! ### the only other panic -/
 
